@@ -171,6 +171,10 @@ def read_all(case, res, name, viols):
             viols.append(C.V("output-missing", f"{name}: output file {e} was not created"))
             continue
         except fmt.FormatError as e:
+            if "sequence and quality lengths differ" in str(e) and C._optval(case["opts"], "--action") == "mask":
+                # the per-read defect noted in DESIGN section 11 (indexed anchored adapters, --action=mask, a read
+                # shorter than the adapter: more sequence than quality values); a FASTA reference hides it
+                raise engine.Discard("mask-writes-record-with-unequal-lengths")
             viols.append(C.V("unreadable-output", f"{name}: {d['paths']}: {e}"))
             continue
         key = d["key"]
